@@ -81,6 +81,9 @@ Proof.
     eapply Forall_impl; [|exact H]. intros s Hs. now apply Hs.
   - now rewrite (eval_decls_ext ms _ _ _ _ He Hm), (IHp1 _ _ _ _ He Hm), (IHp2 _ _ _ _ He Hm).
   - apply IHp; [now apply menv_ext | now apply mcomp_ext].
+  - now rewrite (tdur_ext p _ _ He), (IHp _ _ _ _ He Hm).
+  - now apply IHp.
+  - now apply IHp.
 Qed.
 
 Lemma denote_ext p : forall en en' mm mm', eqe en en' -> eqm mm mm' -> denote p en mm = denote p en' mm'.
